@@ -8,7 +8,7 @@ NEEDS_SHIM = False
 BUDGET = {"quick": 2000, "thorough": 50000}
 MIN_EVALS = {"quick": 3000, "thorough": 80000}
 RULE = (
-    "seeded random cases: grid dataset of 1-2 axes (a quarter of them two faces joined by same-axis or axis-swapping links) with dimension coordinates on all, none or a random subset of the dimensions (with attributes), 0-5 random "
+    "seeded random cases: grid dataset of 1-2 axes (a quarter of them two faces joined by same-axis or axis-swapping links, the input there a scalar or a vector component {axis: component} with its partner) with dimension coordinates on all, none or a random subset of the dimensions (with attributes), 0-5 random "
     "non-dimension coordinates (0-D/1-D/N-D on any mix of positions and an extra dim, with attributes), an input at a "
     "random position carrying the dataset's coordinates or none, one of diff/interp/min/max/cumsum over one or two axes "
     "with any of the 8 shifts (padded and unpadded paths), keep_coords true/false/default. Verdicts: coordinate set of "
@@ -28,6 +28,8 @@ def gen_case(rng, i, tier):
         nax, n = 2, rng.randint(2, 3)
         layout = {"axes": [{"name": a, "pos": [["center", a.lower()], ["left", a.lower() + "l"]], "n": n} for a in ("X", "Y")]}
         fc = rng.choice([{"0": {"X": [None, [1, "Y", False]]}, "1": {"Y": [[0, "X", False], None]}},
+                         {"0": {"X": [[1, "Y", False], None]}, "1": {"Y": [None, [0, "X", False]]}},
+                         {"0": {"Y": [[1, "Y", False], None]}, "1": {"Y": [None, [0, "Y", False]]}},
                          {"0": {"X": [None, [1, "X", False]]}, "1": {"X": [[0, "X", False], None]}},
                          {"0": {"X": [[1, "X", False], [1, "X", False]], "Y": [[0, "Y", False], [0, "Y", False]]},
                           "1": {"X": [[0, "X", False], [0, "X", False]], "Y": [[1, "Y", False], [1, "Y", False]]}}])
@@ -49,6 +51,7 @@ def gen_case(rng, i, tier):
             continue
         aux.append({"name": f"aux{k}", "dims": dd, "attrs": {"u": k} if rng.random() < 0.7 else {}})
     dim_attrs = {d: {"note": f"attr_{d}"} for d in alld if rng.random() < 0.5}
+    vector = False
     k = 1 if nax == 1 or rng.random() < 0.7 else 2
     opax = rng.sample(axn, k)
     pos = {a: rng.choice(list(cm[a])) for a in axn}
@@ -57,6 +60,13 @@ def gen_case(rng, i, tier):
         pos = {a: "center" for a in axn}
         to = {a: "left" for a in opax}
         dims = [cm[a]["center"] for a in axn] + ["face"] + (["time"] if rng.random() < 0.6 else [])
+        if rng.random() < 0.4:
+            # a C-grid vector component {axis: component} (with its partner) moved from its own face to the centre
+            vector = True
+            opax = opax[:1]
+            pos = {a: ("left" if a == opax[0] else "center") for a in axn}
+            to = {opax[0]: "center"}
+            dims = [cm[a][pos[a]] for a in axn] + ["face"] + (["time"] if rng.random() < 0.6 else [])
     else:
         dims = [cm[a][pos[a]] for a in axn if a in opax or rng.random() < 0.7] + (["time"] if rng.random() < 0.6 else [])
     rng.shuffle(dims)
@@ -65,7 +75,8 @@ def gen_case(rng, i, tier):
         "pos": pos, "dims": dims, "opax": opax, "to": to,
         # cumsum is not drawn on face-connected grids: it trims the array before padding, so faces are no longer
         # square and an axis-swapping link cannot be padded (outside what any of the properties states)
-        "op": rng.choice(["diff", "interp", "min", "max"] if faces else ["diff", "interp", "min", "max", "cumsum"]),
+        "op": rng.choice(["diff", "interp"] if vector else ["diff", "interp", "min", "max"] if faces else ["diff", "interp", "min", "max", "cumsum"]),
+        "vector": vector,
         "keep_coords": rng.choice([True, False, None]), "carry": rng.random() < 0.5,
         "name": rng.choice(["nm", "temperature", None]), "boundary": rng.choice(["fill", "extend", "periodic"]),
         "dseed": rng.getrandbits(31), "fc": fc,
@@ -118,13 +129,24 @@ def run_case(ctx, desc):
         kw["keep_coords"] = desc["keep_coords"]
     kc = bool(desc["keep_coords"])
     axarg = opax if len(opax) > 1 else opax[0]
+    if desc.get("vector"):
+        a0 = opax[0]
+        oth = [a for a in cm if a != a0][0]
+        odims = [{cm[a0]["left"]: cm[a0]["center"], cm[oth]["center"]: cm[oth]["left"]}.get(d, d) for d in dims]
+        partner = xr.DataArray(gen.quarter_data(desc["dseed"] + 5, [ds.sizes[d] for d in odims]), dims=odims, name="partner_component")
+
+        def run(x):
+            return getattr(g, op)({a0: x}, a0, other_component={oth: partner}, **kw)
+    else:
+        def run(x):
+            return getattr(g, op)(x, axarg, **kw)
     rdims = [{cm[a][desc["pos"][a]]: cm[a][to[a]] for a in opax}.get(d, d) for d in dims]
     expc = {c for c, v in ds.coords.items() if set(v.dims) <= set(rdims) and (kc or c in rdims)}
-    ckey = (op, "faces" if desc.get("fc") else "simple", [(desc["pos"][a], to[a]) for a in opax], desc["keep_coords"], desc["carry"], desc["withdim"] if isinstance(desc["withdim"], bool) else "mixed",
+    ckey = (op, ("faces-vector" if desc.get("vector") else "faces") if desc.get("fc") else "simple", [(desc["pos"][a], to[a]) for a in opax], desc["keep_coords"], desc["carry"], desc["withdim"] if isinstance(desc["withdim"], bool) else "mixed",
             min(3, len(expc)))
     ctx.judged(ckey, len(expc) > 0)
     try:
-        r = getattr(g, op)(da, axarg, **kw)
+        r = run(da)
     except Exception as e:
         ctx.violation("well-posed-call-returns", f"{op} raised {type(e).__name__}: {str(e)[:200]}")
         return
@@ -162,7 +184,7 @@ def run_case(ctx, desc):
     for nm, v in variants:
         ctx.judged(("label-independence", nm, op), True)
         try:
-            r2 = getattr(g, op)(v, axarg, **kw)
+            r2 = run(v)
             if tuple(r2.dims) != tuple(r.dims) or not np.array_equal(r2.values, r.values):
                 ctx.violation("values-independent-of-labels", f"{op}: values/dims change when the input's coordinate labels are {nm}")
                 return
